@@ -135,6 +135,62 @@ def opt_scheme(rng):
     return gen.random_scheme(rng, grid=(0, 0.5, 1, 2, 3))
 
 
+def give_a_past(ds, past, sc=None):
+    """the dataset of a case may have a PAST: every view is read and a few algorithms are run (whatever they cache on the object is
+    then in place), after which the dataset is modified IN PLACE by the public mutators. What a check judges afterwards is the
+    behaviour on the dataset as it is now (always observed after this call).
+    past = {"remove": [names], "rate": float or None, "remove_empty": bool}"""
+    import copy as _copy
+    from corankco.algorithms.borda.borda import BordaCount
+    from corankco.algorithms.copeland.copeland import CopelandMethod
+    from corankco.algorithms.pickaperm.pickaperm import PickAPerm
+    from corankco.algorithms.bioconsert.bioconsert import BioConsert
+    from corankco.partitioning.ordered_partition import OrderedPartition
+    touch = [lambda: ds.get_positions(), lambda: ds.get_bucket_ids(), lambda: ds.unified_rankings(), lambda: ds.unified_dataset(),
+             lambda: ds == _copy.deepcopy(ds), lambda: ds != Dataset([]), lambda: ds.description(), lambda: str(ds), lambda: repr(ds),
+             lambda: (ds.is_complete, ds.without_ties, ds.nb_elements, ds.nb_rankings, ds.universe, ds.mapping_elem_id, ds.mapping_id_elem),
+             lambda: [(r.positions, r.domain, r.nb_elements, len(r)) for r in ds.rankings]]
+    if sc is not None:
+        touch += [lambda: BordaCount().compute_consensus_rankings(ds, sc, True), lambda: CopelandMethod().compute_consensus_rankings(ds, sc, True),
+                  lambda: PickAPerm().compute_consensus_rankings(ds, sc, False), lambda: BioConsert().compute_consensus_rankings(ds, sc, False),
+                  lambda: OrderedPartition.parfront_partition(ds, sc)]
+    for f in touch:
+        try:
+            f()
+        except Exception:
+            pass
+    if past.get("remove"):
+        try:
+            ds.remove_elements({e for e in ds.universe if e.value in past["remove"]})
+        except Exception:
+            pass
+    if past.get("rate") is not None:
+        try:
+            ds.remove_elements_rate_presence_lower_than(past["rate"])
+        except Exception:
+            pass
+    if past.get("remove_empty"):
+        try:
+            ds.remove_empty_rankings()
+        except Exception:
+            pass
+    return ds
+
+
+def random_past(rng, D):
+    """a past for the dataset D (never removes every element)"""
+    univ = sorted({e for r in D for b in r for e in b}, key=str)
+    past = {"remove": [], "rate": None, "remove_empty": False}
+    k = rng.random()
+    if k < 0.5 and len(univ) >= 3:
+        past["remove"] = rng.sample(univ, rng.randint(1, min(2, len(univ) - 2)))
+    elif k < 0.75:
+        past["rate"] = rng.choice([0.3, 0.5, 0.6])
+    if rng.random() < 0.5:
+        past["remove_empty"] = True
+    return past
+
+
 def mk(D, s):
     return Dataset.from_raw_list([[set(b) for b in r] for r in D]), ScoringScheme(s)
 
